@@ -1,5 +1,6 @@
 import AFDriver.Wire
 import AFModel.Msg
+import AFModel.MsgGB
 
 /-! Driver for C17: evaluates a *program* over message registers with the `Float` instance of the
 `AF.Msg` model. Special functions of scipy arrive as finite tables (`tables`). -/
@@ -75,6 +76,22 @@ def tablesOf (j : Json) : Except String Tables :=
     pure { ndtr := (← tableOf t "ndtr"), ndtri := (← tableOf t "ndtri"),
            erfinv := (← tableOf t "erfinv"), normPdf := (← tableOf t "normpdf") }
 
+def table3Of (j : Json) (k : String) : Except String (List (Float × Float × Float)) :=
+  match j.getObjVal? k with
+  | .error _ => pure []
+  | .ok a => do
+    (← a.getArr?).toList.mapM fun e => do
+      let t ← e.getArr?
+      if t.size != 3 then throw "bad table entry"
+      pure ((← floatOfJson t[0]!), (← floatOfJson t[1]!), (← floatOfJson t[2]!))
+
+def tables2Of (j : Json) : Except String Tables2 :=
+  match j.getObjVal? "tables" with
+  | .error _ => pure {}
+  | .ok t => do
+    pure { lgamma := (← table3Of t "lgamma"), digamma := (← table3Of t "digamma"),
+           trigamma := (← table3Of t "trigamma") }
+
 def getMsg (regs : Array Val) (j : Json) (k : String) : Except String (M Float) := do
   let i ← getNat j k
   match regs[i]? with
@@ -94,7 +111,7 @@ def newOf (j : Json) : Except String (Base Float) := do
   let hi ← getFloat j "hi"
   pure { fam := fam, p1 := p1, p2 := p2, logNorm := ln, id := id, lower := lo, upper := hi }
 
-def step (fn : Fn Float) (regs : Array Val) (j : Json) : Except String Val := do
+def step (fn : Fn Float) (sp : Sp Float) (regs : Array Val) (j : Json) : Except String Val := do
   let op ← getStr j "op"
   match op with
   | "new" => pure (.msg (.plain (← newOf j)))
@@ -108,7 +125,7 @@ def step (fn : Fn Float) (regs : Array Val) (j : Json) : Except String Val := do
     let lo ← getFloat j "lo"
     let hi ← getFloat j "hi"
     -- the constructor flattens a transformed base: its transforms come first
-    pure (.msg (.transformed { base := inner.base, trs := inner.trs ++ trs, id := id, lower := lo, upper := hi }))
+    pure (.msg (inner.wrap trs id lo hi))
   | "mul" => pure (.msg ((← getMsg regs j "a").mul fn (← getMsg regs j "b")))
   | "div" => pure (.msg ((← getMsg regs j "a").div fn (← getMsg regs j "b")))
   | "pow" => pure (.msg ((← getMsg regs j "a").pow fn (← getFloat j "k")))
@@ -155,6 +172,39 @@ def step (fn : Fn Float) (regs : Array Val) (j : Json) : Except String Val := do
   | "valuefor" => pure (.num ((← getMsg regs j "a").valueFor fn (← getFloat j "x")))
   | "transform" => pure (.num (transformChain fn (← getMsg regs j "a").trs (← getFloat j "x")))
   | "inverse" => pure (.num (inverseChain fn (← getMsg regs j "a").trs (← getFloat j "x")))
+  -- Gamma / Beta families and the every-family forms (`AFModel/MsgGB.lean`)
+  | "logpdfx" => pure (.num ((← getMsg regs j "a").logpdfX fn sp (← getFloat j "x")))
+  | "meanx" => pure (.num ((← getMsg regs j "a").meanX fn sp))
+  | "expstats" => let e := (← getMsg regs j "a").base.expectedStats fn sp; pure (.pair e.1 e.2)
+  | "canon" =>
+    let t := toCanonical fn sp (← getMsg regs j "a").base.fam (← getFloat j "x"); pure (.pair t.1 t.2)
+  | "logpartition" =>
+    let m ← getMsg regs j "a"
+    pure (.num (logPartitionGB fn sp m.base.fam m.natural))
+  | "fromsuffx" =>
+    let fam ← famOf (← getStr j "fam")
+    pure (.msg (.plain (fromSuffX fn sp fam (← getFloat j "m1") (← getFloat j "m2") (← getFloat j "ln") (← getNat j "id"))))
+  | "projectx" =>
+    let fam ← famOf (← getStr j "fam")
+    pure (.msg (.plain (projectX fn sp fam (← floats j "xs") (← floats j "lws") (← getNat j "id"))))
+  | "mprojectx" =>
+    let a ← getMsg regs j "a"
+    pure (.msg (a.projectX fn sp (← floats j "xs") (← floats j "lws") (← getNat j "id")))
+  | "mulb" =>
+    let b ← getMsg regs j "b"
+    pure (.msg (.plain ((← getMsg regs j "a").base.mulB fn b.natural (← getNat j "j"))))
+  | "divb" =>
+    let b ← getMsg regs j "b"
+    pure (.msg (.plain ((← getMsg regs j "a").base.divB fn b.natural b.base.logNorm (← getNat j "j"))))
+  | "residual" =>
+    let fam ← famOf (← getStr j "fam")
+    let r := suffResidual fn sp fam (← getFloat j "m1") (← getFloat j "m2"); pure (.pair r.1 r.2)
+  | "invpsilog" => pure (.num (invpsilog fn sp (← getFloat j "x")))
+  | "invbeta" => let ab := invBetaSuffstats fn sp (← getFloat j "x") (← getFloat j "y"); pure (.pair ab.1 ab.2)
+  | "frommode" =>
+    let fam ← famOf (← getStr j "fam")
+    pure (.msg (.plain (fromMode fn sp fam (← getFloat j "m") (← getFloat j "v") (← getFloat j "ln") (← getNat j "id")
+      (← getFloat j "lo") (← getFloat j "hi"))))
   | s => throw s!"bad op {s}"
 
 end AF.Driver.C17
@@ -164,10 +214,11 @@ open AF.Driver.C17
 
 def handleC17 (j : Json) : Except String Json := do
   let fn := floatFn (← tablesOf j)
+  let sp := floatSp (← tables2Of j)
   let prog ← getArr j "prog"
   let mut regs : Array Val := #[]
   for s in prog do
-    regs := regs.push (← step fn regs s)
+    regs := regs.push (← step fn sp regs s)
   pure (Json.mkObj [("out", Json.arr (regs.map jsonOfVal))])
 
 end AF.Driver
